@@ -30,7 +30,7 @@ fn expectations(st: &ObservableState) -> Vec<(String, Vec<(String, String)>, f64
     let base = vec![("clock_identity".to_string(), cid_str(&i.default_ds.clock_identity.0))];
     let mut e: Vec<(String, Vec<(String, String)>, f64)> = vec![];
     let b = |v: bool| if v { 1.0 } else { 0.0 };
-    e.push(("statime_uptime_seconds".into(), vec![("version".into(), st.program.version.clone()), ("build_commit".into(), st.program.build_commit.clone()), ("build_commit_date".into(), st.program.build_commit_date.clone())], st.program.uptime_seconds));
+    e.push(("statime_uptime_seconds".into(), vec![("version".into(), st.program.version.clone()), ("build_commit".into(), st.program.build_commit.clone()), ("build_commit_date".into(), st.program.build_commit_date.clone())], serde_json::to_value(&st.program).ok().and_then(|v| v["uptime_seconds"].as_f64()).unwrap_or(f64::NAN)));
     e.push(("statime_number_ports".into(), base.clone(), i.default_ds.number_ports as f64));
     e.push(("statime_quality_class".into(), base.clone(), i.default_ds.clock_quality.clock_class as f64));
     e.push(("statime_quality_accuracy".into(), base.clone(), i.default_ds.clock_quality.clock_accuracy.to_primitive() as f64));
@@ -392,12 +392,16 @@ pub fn check_state(rep: &mut Report, ctx: &mut Ctx, st: &ObservableState, label:
 }
 
 fn program(rng: &mut StdRng) -> ProgramData {
-    ProgramData {
-        version: ["0.4.0", "1.2.3-rc\"1\"", "v\\x", "0.4.0-\u{e9}t\u{e9}-\u{b5}s"][rng.gen_range(0..4)].to_string(),
-        build_commit: "abc\ndef".to_string(),
-        build_commit_date: "2026-01-01".to_string(),
-        uptime_seconds: [0.0, 1.5, 86400.25, 1e9][rng.gen_range(0..4)],
-    }
+    // through the wire format, so that the harness does not depend on how the struct stores it
+    let version = ["0.4.0", "1.2.3-rc\"1\"", "v\\x", "0.4.0-\u{e9}t\u{e9}-\u{b5}s"][rng.gen_range(0..4)];
+    let uptime = [0.0, 1.5, 86400.25, 1e9][rng.gen_range(0..4)];
+    serde_json::from_value(json!({
+        "version": version,
+        "build_commit": "abc\ndef",
+        "build_commit_date": "2026-01-01",
+        "uptime_seconds": uptime,
+    }))
+    .expect("program data")
 }
 
 fn state_of(node: &Node, contribution: Option<FilterEstimate>, prog: ProgramData) -> ObservableState {
